@@ -173,6 +173,8 @@ def run_unit(name, tier="quick", rlimit=None, smt_seed=None):
         res["ledger_ok"] = (led is not None and led == res["trusted"])
         res["ledger"] = led
         obs = enumerate_obligations(unit, ex, contracts)
+        for o in obs:
+            o["status"] = "undecided"
         res["obligations"] = obs
         res["functions_under_contract"] = sorted({o["fn"] for o in obs})
         extra = []
@@ -429,7 +431,12 @@ def decide(prop, tier, seed, args):
         bounded = {"error": str(e)}
     if bounded and bounded.get("violations"):
         # a concrete input on which the real compiled code violates the executable contract: a violation whatever verus digested
+        all_obs = {o["id"]: o for r in results for o in r["obligations"]}
         for v in bounded["violations"]:
+            ob = all_obs.get(v.get("obligation"))
+            if ob is not None:
+                if prop not in ob["props"] or (prop == "C01" and ob["kind"] != "safety"):
+                    continue  # this concrete failure belongs to a clause of another property
             k = next((k for k in known if k["obligation"] == v.get("obligation")), None)
             if k:
                 if not any(kk is k for (_, _, kk) in knowns):
@@ -608,4 +615,13 @@ def main():
 
 
 if __name__ == "__main__":
-    sys.exit(main())
+    try:
+        rc = main()
+    except SystemExit:
+        raise
+    except BaseException as e:  # a failure of the machinery is never an alarm
+        import traceback
+        traceback.print_exc()
+        print(f"UNDECIDED reason=internal-error {type(e).__name__}: {e}")
+        rc = E.EXIT_UNDECIDED
+    sys.exit(rc)
